@@ -62,10 +62,14 @@ theorem bridge_sc_encode (f : Gen.Go.frame) (cf : Gen.Go.Frame) :
 
 theorem bridge_sc_decode (f : Gen.Go.frame) :
     frameOf (frame_decodeFrame_ret f) = decodeFrame (scOf f) ∧ frame_decodeFrame_ok f = true := by
-  obtain ⟨h1, h2, _, h4, o1, o2, _, o4⟩ := bridge_sc_flags f
-  constructor
-  · simp only [frame_decodeFrame_ret, frameOf, decodeFrame, h1, h2, h4, scOf]
-  · simp only [frame_decodeFrame_ok, o1, o2, o4, Bool.and_self]
+  -- field by field, whatever the shape of the translated code (the getters may be called or inlined)
+  have hf : (frame_decodeFrame_ret f).ID = (scOf f).id ∧ (frame_decodeFrame_ret f).Length = f.dataLengthCode ∧
+      (frame_decodeFrame_ret f).Data = f.data ∧ (frame_decodeFrame_ret f).IsRemote = (scOf f).isRemote ∧
+      (frame_decodeFrame_ret f).IsExtended = (scOf f).isExtended ∧ frame_decodeFrame_ok f = true := by
+    bridge_frame
+  obtain ⟨a, b, c, d, e, g⟩ := hf
+  refine ⟨?_, g⟩
+  simp only [frameOf, decodeFrame, a, b, c, d, e, scOf]
 
 /-- `marshalBinary` into any buffer of at least 16 bytes: ID word, length byte and data are the model's image; the three
 padding bytes and everything after byte 15 keep what the buffer held (the transmitter passes a fresh zeroed buffer) -/
